@@ -2140,8 +2140,13 @@ BTree_popitem(BTree* self, PyObject* args)
 
     key = BTree_minKey(self, args); /* reuse existing empty tuple. */
     if (!key) {
-        PyErr_Clear();
-        PyErr_SetString(PyExc_KeyError, "popitem(): empty BTree.");
+        /* minKey() says ValueError for an empty container; any other
+         * failure (the node could not be loaded, ...) is not emptiness.
+         */
+        if (PyErr_ExceptionMatches(PyExc_ValueError)) {
+            PyErr_Clear();
+            PyErr_SetString(PyExc_KeyError, "popitem(): empty BTree.");
+        }
         return NULL;
     }
 
